@@ -67,7 +67,9 @@ func main() {
 var childCmds = map[string]func(args []string){}
 
 func childMain(args []string) {
-	log.SetOutput(io.Discard)
+	if os.Getenv("VERIF_DEBUG") == "" {
+		log.SetOutput(io.Discard)
+	}
 	if len(args) == 0 {
 		os.Exit(2)
 	}
